@@ -49,6 +49,7 @@ var c15Cases = []c15Case{
 	{src: "type Query { i: I u: U s: Sc } §D interface I { §D x: Int } §D union U = A | B type A implements I { x: Int } type B { y: Int } §D scalar Sc"},
 	{src: "type Query { a: Int @deprecated(reason: §S) b(x: [String!]! = [§S]): [[Int]!] }"},
 	{src: "type Query { a: Int @d(n: null) b: Int @d c: Int @d(n: 3, s: §S, l: [1, 2], o: {k: true}, e: X) } directive @d(n: Int = §I s: String = \"z\" l: [Int] o: In2 e: E = X) on FIELD_DEFINITION enum E { X Y } input In2 { k: Boolean }", names: []string{"d"}},
+	{src: "schema { query: Query } type Query { a: Mutation s: Subscription } §D type Mutation { b: String } type Subscription { c(x: String = §S): Int }"},
 	{src: "type Query { f(a: Float = 2500000.5 b: Float = 1e21 c: Float = 1e-7 d: [Float] = [0.5, -6.02e23] e: Float64 = 1.7976931348623157e308 s: String = §S): Int }"},
 }
 
@@ -57,12 +58,14 @@ func C15_roundtrip() {
 	// which part is symbolic: 0 the description, 1 the string default (the
 	// other is a fixed text), 2 both.  quick: 0 or 1 with up to 2 bytes;
 	// thorough: 0 or 1 with up to 3 bytes (three quotes in a row need three),
-	// or both with up to 2 bytes each.  Every byte value (valid UTF-8).
+	// or both with up to 1 byte each.  Every byte value (valid UTF-8).
 	which, maxLen := 0, 2
 	if sym.Thorough() {
 		which = sym.Choice("symbolic part", 3)
 		if which != 2 {
 			maxLen = 3
+		} else {
+			maxLen = 1 // both symbolic: one byte each (two each did not fit 25 minutes)
 		}
 	} else {
 		which = sym.Choice("symbolic part", 2)
@@ -83,8 +86,6 @@ func C15_roundtrip() {
 	ncases := len(c15Cases)
 	if dlen == 3 || slen == 3 {
 		ncases = 1
-	} else if which == 2 {
-		ncases = 4 // both parts symbolic: the four skeletons that have both (all eight did not fit 45 minutes)
 	}
 	c := c15Cases[sym.Choice("case", ncases)]
 	in := sym.Int64("int")
@@ -129,6 +130,8 @@ func C15_roundtrip() {
 	sym.Assert(err == nil, "printed SDL is accepted by a fresh root")
 	s2 := r2.SDL(false, true)
 	sym.Assert(s2 == s1, "printing again yields the same text")
+	const ops = "{__schema{queryType{name} mutationType{name} subscriptionType{name}}}"
+	sym.Assert(sym.DeepEqual(interface{}(r1.ResolveString(ops, "", nil)), interface{}(r2.ResolveString(ops, "", nil))), "the printed SDL binds the same root operation types")
 	d1 := descSchema(r1, c.names...)
 	d2 := descSchema(r2, c.names...)
 	sym.Assert(sym.DeepEqual(interface{}(d1), interface{}(d2)), "the printed SDL defines the same schema")
